@@ -299,6 +299,106 @@ func (b *Bundle) UnusedChain(length int, class string, selfRef bool) {
 	}
 }
 
+// twinSeparators: the character after which twin names differ, per name class.
+var twinSeparators = map[string][2]string{"ident": {"", ""}, "space": {" ", ""}, "unicode": {"é", "ß"}, "slash": {"/", ""}, "tilde": {"~", ""},
+	"qmark": {"?", ""}, "hash": {"#", ""}, "bracket": {"[", "]"}, "brace": {"{", "}"}}
+
+// NameTwins plants two (or three) names of one class that are equal up to what follows the class's special character
+// ("Pet#v1" / "Pet#v2"), side by side in the same role: a slip that truncates or mangles a name at that character
+// makes them meet.
+func (b *Bundle) NameTwins(class, role string) {
+	sep := twinSeparators[class]
+	base := Pick(b.rng, idents) + strconv.Itoa(b.id()) + sep[0]
+	var names []string
+	for i := 1; i <= 2+b.rng.IntN(2); i++ {
+		names = append(names, base+"v"+strconv.Itoa(i)+sep[1])
+	}
+	b.Tag("name:" + class)
+	b.Tag("cell:name-twins/" + class + "/" + role)
+	use := func(ref string) {
+		op := b.Op(b.newPath(), Pick(b.rng, MethodsAll), true)
+		jx.AsObj(op["responses"])["200"] = jx.Obj{"description": b.lbl("u"), "schema": jx.Obj{"$ref": ref}}
+	}
+	switch role {
+	case "definition":
+		for _, n := range names {
+			use(b.Def(n, b.Obj()))
+		}
+	case "importedDefinition":
+		f := Pick(b.rng, auxFiles)
+		holder := jx.Obj{}
+		for i, n := range names {
+			b.AuxDef(f, n, b.Obj())
+			if i == 0 {
+				use(f + "#/definitions/" + jx.EscTok(n))
+			} else {
+				holder["p"+strconv.Itoa(i)] = jx.Obj{"$ref": f + "#/definitions/" + jx.EscTok(n)}
+			}
+		}
+		use(b.Def(b.lbl("TwinHolder"), jx.Obj{"type": "object", "description": b.lbl("th"), "properties": holder}))
+	case "property":
+		props := jx.Obj{"plain": jx.Obj{"type": "string"}}
+		for _, n := range names {
+			props[n] = b.Obj()
+		}
+		use(b.Def(b.lbl("TwinHost"), jx.Obj{"type": "object", "description": b.lbl("tw"), "properties": props}))
+	case "importedProperty":
+		f := Pick(b.rng, auxFiles)
+		props := jx.Obj{}
+		for _, n := range names {
+			props[n] = b.Obj()
+		}
+		d := b.lbl("ImpTwinHost")
+		b.AuxDef(f, d, jx.Obj{"type": "object", "description": b.lbl("it"), "properties": props})
+		use(f + "#/definitions/" + jx.EscTok(d))
+	}
+	if len(b.Aux) > 0 {
+		b.Tag("multi-doc")
+	}
+}
+
+// UnusedLinks plants a chain (or a cycle) of unused definitions whose links are of the given kinds
+// (alias = the definition is nothing but a $ref).
+func (b *Bundle) UnusedLinks(kinds []string, cycle bool) {
+	b.Tag("unused")
+	b.Tag(fmt.Sprintf("cell:unused/links/%s/cycle=%v", strings.Join(kinds, "+"), cycle))
+	names := make([]string, len(kinds)+1)
+	for i := range names {
+		names[i] = b.lbl("Un")
+	}
+	for i, n := range names {
+		var target string
+		switch {
+		case i < len(kinds):
+			target = "#/definitions/" + names[i+1]
+		case cycle:
+			target = "#/definitions/" + names[0]
+		default:
+			b.Def(n, b.Obj())
+			continue
+		}
+		kind := "property"
+		if i < len(kinds) {
+			kind = kinds[i]
+		}
+		ref := jx.Obj{"$ref": target}
+		var d jx.Obj
+		switch kind {
+		case "alias":
+			d = ref
+		case "allOf":
+			d = jx.Obj{"description": b.lbl("ul"), "allOf": jx.Arr{ref, jx.Obj{"type": "object", "properties": jx.Obj{"v": jx.Obj{"type": "string"}}}}}
+		case "items":
+			d = jx.Obj{"type": "array", "description": b.lbl("ul"), "items": ref}
+		case "addProps":
+			d = jx.Obj{"type": "object", "description": b.lbl("ul"), "additionalProperties": ref}
+		default:
+			d = jx.Obj{"type": "object", "description": b.lbl("ul"), "properties": jx.Obj{"next": ref}}
+		}
+		b.Def(n, d)
+	}
+}
+
 // Files renders the bundle: every document in spec-model normal form, canonical key order.
 func (b *Bundle) Files(nf func(jx.Obj) jx.Obj) map[string]string {
 	out := map[string]string{"root.json": string(jx.Canon(nf(b.Root)))}
@@ -333,7 +433,7 @@ func sysSpecs() []sysSpec {
 	}
 	for _, h := range ExtendedHolders {
 		for _, c := range []string{"definition", "opParam", "codeResponse"} {
-			for _, t := range []string{"localDef", "remoteDef", "anonProperty", "inlineObject", "inlineTuple", "inlineAllOf"} {
+			for _, t := range []string{"localDef", "remoteDef", "anonProperty", "inlineObject", "inlineTuple", "inlineAllOf", "inlineAllOfMap"} {
 				h, c, t := h, c, t
 				add(fmt.Sprintf("extended/%s/%s/%s", h, c, t), func(b *Bundle) { b.Tag("extended"); b.Plant(h, c, t, 1) })
 			}
@@ -359,6 +459,24 @@ func sysSpecs() []sysSpec {
 			cl, r := cl, r
 			// two names of the same class in the same role (names that are mangled alike meet each other)
 			add(fmt.Sprintf("name-pair/%s/%s", cl, r), func(b *Bundle) { b.NameFeature(cl, r); b.NameFeature(cl, r); b.Tag("cell:name-pair/" + cl + "/" + r) })
+		}
+	}
+	for _, cl := range NameClasses {
+		if _, ok := twinSeparators[cl]; !ok {
+			continue
+		}
+		for _, r := range []string{"definition", "importedDefinition", "property", "importedProperty"} {
+			cl, r := cl, r
+			add(fmt.Sprintf("name-twins/%s/%s", cl, r), func(b *Bundle) { b.NameTwins(cl, r) })
+		}
+	}
+	for _, ks := range [][]string{{"alias"}, {"alias", "property"}, {"property", "alias"}, {"alias", "alias"}, {"allOf"}, {"items", "addProps"}, {"alias", "allOf", "items"}} {
+		for _, cyc := range []bool{false, true} {
+			ks, cyc := ks, cyc
+			add(fmt.Sprintf("unused/links/%s/cycle=%v", strings.Join(ks, "+"), cyc), func(b *Bundle) {
+				b.UnusedLinks(ks, cyc)
+				b.Plant("property", "codeResponse", "localDef", 1)
+			})
 		}
 	}
 	for _, k := range CollisionKinds {
@@ -620,6 +738,9 @@ func collisionWhereSets() [][]string {
 		{"defAlias", "defItems", "codeResponse"}, {"defProperty", "respProperty", "sharedResponse"},
 		{"remoteCyclicHolder"}, {"remoteCyclicHolder", "codeResponse"}, {"defProperty", "remoteCyclicHolder"},
 		{"codeResponse", "remoteWrapper"}, {"remoteWrapper", "defProperty"}, {"remoteWrapper"},
+		// two referrers of the same kind: keys of equal depth that differ only in the holder's name (ties in the orderings)
+		{"defAllOf", "defAllOf"}, {"defItems", "defItems"}, {"defAddProps", "defAddProps"}, {"opParam", "opParam"},
+		{"codeResponse", "codeResponse"}, {"respItems", "respItems"}, {"defAllOf", "defAllOf", "defAllOf"}, {"defAlias", "defAlias"},
 	}...)
 	return out
 }
